@@ -865,7 +865,7 @@ pub fn worker(ctx: &mut Ctx) {
     spell.config.set_rule_enabled("SpellCheck", true);
 
     let fes: Vec<Fe> = Fe::all();
-    let n = ctx.budget(120_000, 3_000_000);
+    let n = ctx.budget(400_000, 3_000_000);
     let mut rng = ctx.rng_global("c04");
     let mut parsers: std::collections::HashMap<Fe, Box<dyn harper_core::parsers::Parser>> = std::collections::HashMap::new();
     let mut per_fe: std::collections::BTreeMap<String, u64> = Default::default();
